@@ -150,8 +150,9 @@ def olc_side(rule, what='the olc_db instantiation'):
 
 
 KEYBUF = ('unodb::detail::key_buffer',)
-SEQ_POINT = [R(point.noeff1), R(point.keyeq1), R(find.find1), R(find.ord1), R(slot.slot1), R(point.pair1), R(point.copy1), R(lambda cfg: point.desc1(cfg, which='point')), R(prefix.pfx1), R(prefix.pfx2), R(prefix.pfx3), R(lambda cfg: point.type1(cfg, which='point')), R(lambda cfg: nodes.mut1(cfg, parts=('count', 'clear'))), R(nodes.idx1)]
-SEQ_SCAN = [R(seq.cmp3), R(enc.cmp_shape), R(enum1.enum1), R(iterrules.iter2), R(lambda cfg: point.desc1(cfg, which='seek')), R(iterrules.vis1), R(lambda cfg: point.type1(cfg, which='scan')), R(iterrules.stack1), R(iterrules.iter6)]
+ORD_RANGE = R(lambda cfg: find.ord1(cfg, mode='range'))
+SEQ_POINT = [R(point.noeff1), R(point.keyeq1), R(find.find1), ORD_RANGE, R(slot.slot1), R(point.pair1), R(point.copy1), R(lambda cfg: point.desc1(cfg, which='point')), R(prefix.pfx1), R(prefix.pfx2), R(prefix.pfx3), R(lambda cfg: point.type1(cfg, which='point')), R(lambda cfg: nodes.mut1(cfg, parts=('count', 'clear'))), R(nodes.idx1)]
+SEQ_SCAN = [R(seq.cmp3), R(enc.cmp_shape), R(enum1.enum1), R(iterrules.iter2), R(lambda cfg: point.desc1(cfg, which='seek')), R(iterrules.vis1), R(lambda cfg: point.type1(cfg, which='scan')), R(iterrules.stack1), R(iterrules.iter6), R(find.ord1), R(point.pair1)]
 
 
 def _qsbr_roots(m):
@@ -193,8 +194,8 @@ def simd_axis_sse(ctx, tier, olc_only=False, fns=None):
 PROPERTIES['C01'] = {
     'level': 'other',
     'configs': two,
-    'multi_rules': [R(simd_axis_sse)],
-    'rules': [R(point.noeff1), R(point.keyeq1), R(point.leaf1), R(point.leaf2), R(point.leaf3), R(point.root1), R(point.split1), R(point.pair1), R(point.copy1), R(point.desc1), R(find.find1), R(find.ord1), R(slot.slot1), R(prefix.pfx1), R(prefix.pfx2), R(prefix.pfx3), R(lambda cfg: point.type1(cfg, which='point')), R(lambda cfg: nodes.mut1(cfg, parts=('count', 'clear'))), R(nodes.idx1),
+    'multi_rules': [R(lambda ctx, tier: simd_axis_sse(ctx, tier, fns=(slot.slot1, find.find1, lambda cfg: find.ord1(cfg, mode='range'))))],
+    'rules': [R(point.noeff1), R(point.keyeq1), R(point.leaf1), R(point.leaf2), R(point.leaf3), R(point.root1), R(point.split1), R(point.pair1), R(point.copy1), R(point.desc1), R(find.find1), ORD_RANGE, R(slot.slot1), R(prefix.pfx1), R(prefix.pfx2), R(prefix.pfx3), R(lambda cfg: point.type1(cfg, which='point')), R(lambda cfg: nodes.mut1(cfg, parts=('count', 'clear'))), R(nodes.idx1),
               R(qsbr.q_free_paths), R(qsbr.q_rotation), R(qsbr.q_barriers), R(lambda cfg: qsbr.q_orphans(cfg, parts=('7', '9'))), R(qsbr.q_tagging), R(qsbr.q_last_out), R(qsbr.q_register_epoch), R(qsbr.q_wrap), R(qstate.qs1), R(qsbr.q_cas),
               advisory(R(lambda cfg: iterrules.sib1_point(cfg, accounting=False))), R(lambda cfg: olcrules.lock6(cfg, kinds=('leaf',))), R(olcrules.lock6b)],
     'technique': 'static analysis: path-sensitive effect flow with callee summaries (result/effect correlation), control-dependence rules (full-key comparison guards), writer/reader expression agreement, abstract interpretation of the node search and key-prefix arithmetic in byte-vector / lane-wise three-valued domains with exhaustively enumerated lengths and counts, sibling differencing db vs olc_db',
@@ -203,7 +204,7 @@ PROPERTIES['C01'] = {
                    'KEYEQ-1 every "key present" decision (value returned by get, duplicate rejected by insert, leaf unlinked by remove and by the remove helpers of every node class) is control-dependent on a full comparison of the reached leaf\'s key with the operation\'s own key. '
                    'LEAF-1 the leaf constructor copies key and value to exactly the ranges the getters read, sized from its arguments, and the allocation is sized from the same numbers; LEAF-2 leaves are immutable after construction (const fields, const methods, no write through `data` elsewhere); LEAF-3 no cast drops const from byte / leaf pointers (positive control in the analysis unit) - so an existing entry and any value view onto it cannot change while the leaf exists; '
                    'LOCK-6 (leaf sites only) leaves of the OLC index are freed only through QSBR (view valid until the next quiescent state), LOCK-6b the reclaiming deleters defer the very node they were given. ROOT-1 empty() is "root is null" and clear() stores null into the root on every path. '
-                   'FIND-1 find_child of each node class returns exactly the child stored for the key byte: I4 / I16 by lane-wise three-valued evaluation of the SSE search with child count and match position enumerated and stale slots free, I48 / I256 by term comparison; SLOT-1 I48 files a new child in the first null slot of its pointer array (lane-wise evaluation of the SSE4.2 / AVX2 / scalar search, first null slot enumerated 0..47; FIND-1 / ORD-1 / SLOT-1 are evaluated in the configuration without AVX2 as well - the SSE4.2 branches are dead code in the baseline build); ORD-1 the dense classes insert at the rank of the new key byte (sortedness preserved); PAIR-1 every function of the dense classes writes the key array and the child array in lock-step (same target and source slots), so slot i of one always describes slot i of the other. '
+                   'FIND-1 find_child of each node class returns exactly the child stored for the key byte: I4 / I16 by lane-wise three-valued evaluation of the SSE search with child count and match position enumerated and stale slots free, I48 / I256 by term comparison; SLOT-1 I48 files a new child in the first null slot of its pointer array (lane-wise evaluation of the SSE4.2 / AVX2 / scalar search, first null slot enumerated 0..47; FIND-1 / ORD-1 / SLOT-1 are evaluated in the configuration without AVX2 as well - the SSE4.2 branches are dead code in the baseline build); ORD-1 (range form) the insert position of the dense classes lies in 0 .. child count for every node content - no live slot is overwritten; that it is the rank of the new byte (sortedness) matters to ordered enumeration only and is decided under C02 / C09; PAIR-1 every function of the dense classes writes the key array and the child array in lock-step (same target and source slots), so slot i of one always describes slot i of the other. '
                    'DESC-1 the descent of get / insert / remove / seek compares each node prefix with the shifted working copy of the key, shifts it by the prefix length, selects the child by its first byte and shifts by one, in this order, the tracked depth moving in step; COPY-1 the grow / shrink initialisers walk the slot arrays of their source node from slot 0 to the array size; '
                    'SPLIT-1 node splits dispatch on the bytes at the split position (leaf split: k1[depth+L] / shifted_k2[L]; prefix split: prefix[len] read before the cut by len+1, key[depth+len]); CAP-1 / CAP-2 the interval obligations "longest common prefix of two distinct keys <= key_prefix_capacity" at the leaf split and "merged prefix <= capacity" at the collapse hold for 64-bit keys and FAIL for byte-string keys - two genuine defects of the pinned tree, listed in known_findings.json and printed as KNOWN-FINDING (replays triage/d1_long_prefix.cpp, triage/d1b_collapse_overflow.cpp). '
                    'MUT-1 effect summaries of the per-class mutators: add_to_nonfull stores (count it was given) + 1 into children_count exactly once on every path, remove stores (old count) - 1, the sparse classes clear the slot they free (I48: child_indexes[i] = empty_child and the pointer slot nulled, I256: children[i] = nullptr); IDX-1 std::array subscripts under counting loops stay inside the slot arrays (constant bounds evaluated, child-count bounds must be strict). TYPE-1 a tagged node pointer is reinterpreted as a leaf only where its type tag was tested to be LEAF and as an inner node only where it was tested not to be (control dependence on the tag test, through locals and out-parameters holding the tag). PFX-1 key_prefix::cut / prepend are the specified byte permutations for every combination of lengths and every content of the stale bytes; PFX-2 shared_len is min(first differing byte, clamp); PFX-3 make_u64, which builds the prefix of the inner node replacing a split leaf, reads the existing key from the split depth (k1.subspan(depth) reaches get_u64); UNUSED-1 no span / string-view narrowing (subspan, first, last, substr) has its result discarded. The last clause of the property for the OLC index - a value view stays readable until the caller\'s next quiescent state - rests on QSBR never freeing early, so the QSBR safety generators Q-1,2,3,4,5,7,9,10,11,12,14,17, QS-1 (described under C05) are checked here as well: crossing the orphan lists, for instance, frees a removed leaf one epoch too soon under a reader that still holds its view. '
@@ -255,7 +256,7 @@ def simd_axis(ctx, tier):
 PROPERTIES['C03'] = {
     'level': 'other',
     'configs': two,
-    'multi_rules': [R(lambda ctx, tier: simd_axis_sse(ctx, tier, olc_only=True))],
+    'multi_rules': [R(lambda ctx, tier: simd_axis_sse(ctx, tier, olc_only=True, fns=(slot.slot1, find.find1, lambda cfg: find.ord1(cfg, mode='range'))))],
     'rules': [scoped(olc('LOCK-1'), _olc_point_roots, POINT), scoped(olc('LOCK-2'), _olc_point_roots, POINT), scoped(olc('LOCK-3'), _olc_point_roots, POINT), scoped(olc('LOCK-5'), _olc_point_roots, POINT),
               scoped(olc('LOCK-9'), _olc_point_roots, POINT), scoped(olc('ROLE'), _olc_point_roots, POINT), scoped(R(point.lock11), _olc_point_roots, POINT), scoped(R(couple.lock12), _olc_point_roots, POINT), scoped(R(couple.lock13), _olc_point_roots, POINT),
               R(lockword.lw)] + [olc_side(r_) for r_ in SEQ_POINT],
@@ -274,7 +275,7 @@ PROPERTIES['C04'] = {
     'configs': two,
     'rules': [keep_keys(olc('LOCK-1'), lambda k: k.startswith(('LOCK-1a', 'LOCK-1c')), 'a result returned without validation is a wrong answer - C03 / C09 - not a use of reclaimed memory'), olc('LOCK-5'), R(olcrules.lock6), R(olcrules.lock6b),
               R(qsbr.q_free_paths), R(qsbr.q_rotation), R(qsbr.q_barriers), R(lambda cfg: qsbr.q_orphans(cfg, parts=('7', '9'))), R(qsbr.q_tagging), R(qsbr.q_last_out), R(qsbr.q_register_epoch), R(qsbr.q_wrap), R(qstate.qs1),
-              R(lambda cfg: qsbr.q_rotation(cfg, parts=('3',))), R(qsbr.q_cas), R(lambda cfg: qsbr.q_orphans(cfg, parts=('8',))), R(qsbr.q_tail_link), R(qsbr.q_sink), R(qsbr.q_list_rmw), R(acc.acc4), scoped(R(exc.exc1), _qsbr_roots, 'QSBR thread start / resume / deferred-deallocation request'), R(ptr.ptr3), R(point.lock11), olc_side(R(lambda cfg: nodes.mut1(cfg, parts=('reclaim',))))],
+              R(lambda cfg: qsbr.q_rotation(cfg, parts=('3',))), R(qsbr.q_cas), R(lambda cfg: qsbr.q_orphans(cfg, parts=('8',))), R(qsbr.q_tail_link), R(qsbr.q_sink), R(qsbr.q_list_rmw), keep_keys(R(acc.acc4), lambda k: k.startswith(('ACC-4:loop', 'ACC-4:delete_root')), 'which counters clear() resets is C10'), scoped(R(exc.exc1), _qsbr_roots, 'QSBR thread start / resume / deferred-deallocation request'), R(ptr.ptr3), R(point.lock11), olc_side(R(lambda cfg: nodes.mut1(cfg, parts=('reclaim',))))],
     'technique': 'static analysis: relational typestate dataflow (validate-before-dereference, obsolete-before-retire), who-may-construct rule for immediate-deleter owners; the QSBR who-may-free / ordering / control-dependence rules of C05',
     'explanation': 'Structural safety conditions of "no use of reclaimed memory": LOCK-1, dereference part (no pointer obtained from a node is followed before the read section on that node is re-validated, so a stale pointer to a retired node is never dereferenced; the "no unvalidated result" part of LOCK-1 is C03 / C09) '
                    'and LOCK-5 (every node an OLC operation hands to reclamation was unlocked-and-obsoleted by it first, so readers still holding a section on it restart; checked at restart returns too - a node retired and then abandoned by a restart is still linked), on every path of every OLC function, both key kinds; '
@@ -291,7 +292,7 @@ PROPERTIES['C09'] = {
     'technique': 'static analysis: relational typestate dataflow over the OLC iterator functions (section validation, stack-entry/version pairing, lock coupling), must-pass-through rules for the re-seek path and the fall-off branch of seek',
     'explanation': 'Structural conditions of concurrent-scan correctness on the OLC iterator functions: LOCK-1 (snapshots validated before use / before a non-restart return), LOCK-7b (no validation on an ended, empty or moved-from section), '
                    'LOCK-8 (every stack entry is pushed with the version of the read section opened on the node it describes, so a later rehydrate/check validates the right lock word), LOCK-9 (hand-over-hand: the child section is opened before the parent section is given up), ROLE (the traversals receive the section their node argument was read under), ITER-1 (the sibling computed is the sibling visited, also on the re-seek path), '
-                   'RESEEK-1 (when a step finds its stack invalidated it re-seeks to the key it stood on, captured before anything is unwound, in the direction of the step, and steps past it exactly when the re-seek found that key again), ITER-3 (when seek falls off an inner node the first stack operation is the sibling step on the parent entry, never a pop), ITER-4 / ITER-5 (direction table and net stack effect of the OLC iterator functions), LOCK-11 (a failed lock step or a failed push leads to the restart result only), LOCK-12 / LOCK-13 (the root pointer is loaded inside its section; nothing definitive while an open section is stale - see C03). Verdicts are scoped to the callee closure of the olc_db iterator and scan functions (the sequential iterator is C02); the lock-word premises LW-1..5 and the OLC-side findings of CMP-2/3, ENUM-1, ITER-2, DESC-1 (seek), VIS-1, TYPE-1, STACK-1, ITER-6 (try_first / try_last / try_seek reset the iterator before they push: they are re-entered by the retry loops, and an abandoned attempt leaves entries behind) and the key-buffer rules ENC-6 / ENC-7 (the OLC iterator assembles its keys in the same buffer class) are reported here too.',
+                   'RESEEK-1 (when a step finds its stack invalidated it re-seeks to the key it stood on, captured before anything is unwound, in the direction of the step, and steps past it exactly when the re-seek found that key again), ITER-3 (when seek falls off an inner node the first stack operation is the sibling step on the parent entry, never a pop), ITER-4 / ITER-5 (direction table and net stack effect of the OLC iterator functions), LOCK-11 (a failed lock step or a failed push leads to the restart result only), LOCK-12 / LOCK-13 (the root pointer is loaded inside its section; nothing definitive while an open section is stale - see C03). Verdicts are scoped to the callee closure of the olc_db iterator and scan functions (the sequential iterator is C02); the lock-word premises LW-1..5 and the OLC-side findings of CMP-2/3, ENUM-1, ITER-2, DESC-1 (seek), VIS-1, TYPE-1, ORD-1 / PAIR-1 (sorted, paired key arrays), STACK-1, ITER-6 (try_first / try_last / try_seek reset the iterator before they push: they are re-entered by the retry loops, and an abandoned attempt leaves entries behind) and the key-buffer rules ENC-6 / ENC-7 (the OLC iterator assembles its keys in the same buffer class) are reported here too.',
     'decides': 'snapshot validation, stack-entry/version pairing and sibling-step consistency in try_first/last/next/prior/seek and the traversals',
     'does_not_decide': 'ordering / completeness of delivered keys under interleavings',
 }
@@ -435,12 +436,12 @@ PROPERTIES['C15'] = {
 PROPERTIES['C08'] = {
     'level': 'other',
     'configs': lambda tier: [B, D, extract.flip(B, 'nostats')] if tier == 'quick' else extract.all_configs(),
-    'rules': [R(exc.exc1), R(exc.exc2), R(exc.exc4), R(exc.exc5), R(exc.exc6), R(exc.heap1), R(mutex.mx1)],
+    'rules': [R(exc.exc1), R(exc.exc2), R(exc.exc4), R(exc.exc5), R(exc.exc6), R(exc.heap1), R(mutex.mx6)],
     'technique': 'static analysis: path-sensitive commit-point effect flow with bottom-up callee summaries (return classes, out-parameter nullness) and whole-program allocation capability; dominance rules in the factories; scope-guard rule for the mutex',
     'explanation': 'Strong exception guarantee as a commit-point property, decided on every path instead of at the ~20 hand-counted injection points of the test suite: '
                    'EXC-1 a path-sensitive dataflow (worlds carrying "an effect has been committed" plus nullness/optional facts, so the descent and retry loops are resolved through the return classes of their helpers; callee summaries bottom-up; allocation capability from the whole-program call graph including libstdc++ bodies) '
                    'over insert/remove of db, mutex_db and olc_db for both key kinds, QSBR resume, thread start and deferred-deallocation requests shows that no allocation-capable call and no throw follows the first committed effect (store into the tree, statistics update, obsoletion, QSBR state change); writes to fresh, unpublished nodes and lock acquisition are not effects; '
-                   'EXC-2 accounting increments happen only in the two factories after the allocation and are rolled back by the deleter of the returned unique_ptr; EXC-3 length limits are thrown before anything is allocated; EXC-5 the exception reaches the caller: no function on a call path from an entry point to a fault point is declared noexcept (it would turn the failure into std::terminate); EXC-4 no allocation-capable call or throw lies between release() of an owning unique_ptr and the hand-over to the next owner (tree slot, another owner, the QSBR instance of the thread), lambda captures of raw pointers included - the thread factory is instantiated in the analysis unit for this; EXC-6 in on_next_epoch_deallocate no call that can fail (allocation-capable and not noexcept) follows a change of the per-thread QSBR state (epoch advanced, lists rotated / executed, pending size updated): the append that files the request is the last fallible step; HEAP-1 allocate_aligned, the one allocator under every node: in the case "posix_memalign failed" (output pointer indeterminate per POSIX) no path reaches the return - case walk with the pointer tracked as valid / null / indeterminate - so a failed allocation always surfaces as std::bad_alloc; MX-1 the mutex is held through a named scope guard, so an exception releases it (OLC write ownership exists only as write_guard objects: LW-1 of C07).',
+                   'EXC-2 accounting increments happen only in the two factories after the allocation and are rolled back by the deleter of the returned unique_ptr; EXC-3 length limits are thrown before anything is allocated; EXC-5 the exception reaches the caller: no function on a call path from an entry point to a fault point is declared noexcept (it would turn the failure into std::terminate); EXC-4 no allocation-capable call or throw lies between release() of an owning unique_ptr and the hand-over to the next owner (tree slot, another owner, the QSBR instance of the thread), lambda captures of raw pointers included - the thread factory is instantiated in the analysis unit for this; EXC-6 in on_next_epoch_deallocate no call that can fail (allocation-capable and not noexcept) follows a change of the per-thread QSBR state (epoch advanced, lists rotated / executed, pending size updated): the append that files the request is the last fallible step; HEAP-1 allocate_aligned, the one allocator under every node: in the case "posix_memalign failed" (output pointer indeterminate per POSIX) no path reaches the return - case walk with the pointer tracked as valid / null / indeterminate - so a failed allocation always surfaces as std::bad_alloc; MX-6 the mutex of mutex_db is only ever taken through scope-bound guard objects (no direct lock() / unlock() on the member), so an exception releases it (OLC write ownership exists only as write_guard objects: LW-1 of C07).',
     'decides': 'commit-point discipline of every operation; compensated accounting; limits-before-allocation; no fault point while ownership is raw; the mutex does not outlive an exception',
     'does_not_decide': '"repeating the operation then succeeds" as behaviour (follows from unchanged state + C01); allocation failures inside deferred deallocation with more than one registered thread (outside the property\'s scope, listed as pruned in the evidence)',
     'assumptions': ['tree operations run with a single registered QSBR thread (C08 as stated): qsbr_per_thread::on_next_epoch_deallocate is treated as non-allocating when reached from a tree operation; it is analysed unpruned as an entry point of its own'],
